@@ -23,14 +23,14 @@ ASSUMPTIONS = [
     "unified() is the library's own (its correctness is C08's subject)",
     "constraints of the quantifier are enforced by construction (a post-pass drops records that would violate them, counted)",
     "rdflib is trusted for TriG syntax; only the default rdf_format is exercised",
-    "identified specialization / alternate / membership relations are not generated: PROV-O has no qualified form for them, so they are not PROV-O-expressible",
+    "an identified alternateOf is not generated: the writer has no form for it at all (it deliberately skips the qualified form for prov:Alternate and writes the plain triple only without identifier), so it is not PROV-O-expressible; identified specialization / membership ARE generated (the library writes prov:qualifiedSpecialization / prov:qualifiedMembership)",
 ]
 REQUIRED_CLASSES = {"all": ["rel:identified", "rel:anon_qualified", "rel:anon_plain", "has:bundle", "value:lang", "value:dt",
                             "value:qn", "value:uri", "value:bool", "merged_identifier", "with_default_namespace_equal_to_declared", "serializer_object_reused_after_modification"]}
 
 NSS = [("ex", "http://example.org/ns/"), ("foo", "http://foo.example/x#"), ("urn", "urn:test:")]
 SIMPLE_ANON = {"attribution", "communication", "delegation", "influence", "specialization", "alternate", "membership"}
-NO_QUALIFIED_FORM = {"specialization", "alternate", "membership"}
+NO_QUALIFIED_FORM = {"alternate"}      # the writer has no form at all for an identified alternateOf; identified specialization / membership use the library's own prov:qualifiedSpecialization / prov:qualifiedMembership
 REL_KINDS = [k for k in spec.RELATION_KINDS if k != "mention"]
 LOCALS = ["e1", "e2", "a1", "a2", "ag1", "x", "y_2", "Z"]
 PROV_CLASS_LOCALS = {spec.KINDS[k][1] for k in spec.KINDS} | set(spec.SUBTYPE_TYPE_TO_BASE) | {"Bundle", "Collection"}
